@@ -113,6 +113,8 @@ class Budget:
 
     def need(self, env, amt, what, e, reported):
         """obligation: B >= amt"""
+        if env.get('poison'):
+            return          # behind a length with no derivable bound (reported there): nothing more can be said until the next Grow
         key = (what, locline(e['loc']))
         Bv = env['B']
         ok = Bv is not None and amt is not None and Bv[0] >= amt[0] and Bv[1] >= amt[1]
@@ -150,6 +152,7 @@ class Budget:
                         env['B'] = lb if env['B'] is None else (max(env['B'][0], lb[0]), max(env['B'][1], lb[1]))
                 elif n == 'Grow':
                     lb = self.lin(args[0], env, bid, i, False)
+                    env['poison'] = False
                     if lb is not None:
                         if env['B'] is None:
                             env['B'] = lb
@@ -171,7 +174,11 @@ class Budget:
                     env['cleared'] = False
                     amt = self.lin(args[0], env, bid, i, True)
                     self.need(env, amt, show(e)[:70], e, reported)
-                    self.consume(env, amt)
+                    if amt is None or amt[1] >= (1 << 32):
+                        env['poison'] = True      # no bound for this length on this path: reported above, not propagated
+                        env['B'] = None
+                    else:
+                        self.consume(env, amt)
                 elif n == 'Push5_8':
                     env['cleared'] = False
                     ub = self.lin(args[1], env, bid, i, True)
@@ -210,7 +217,8 @@ class Budget:
                 name = strip(e['l'])['name']
                 # new string length symbol?
                 rhs = strip_expect(e['r'])
-                if name == 'str_len':
+                if rhs is not None and rhs.get('k') == 'call' and rhs.get('cname') in ('Size', 'size', 'length'):
+                    # the string-length symbol by role: the local that receives the node's Size()
                     # forms mentioning the old symbol die
                     env['lin'] = {k: v for k, v in env['lin'].items() if v[0] == 0}
                     env['ub'] = {k: v for k, v in env['ub'].items() if v[0] == 0}
@@ -681,7 +689,12 @@ def run(rep, tier):
         rep.corroborate(r_, 'E5.format', only=lambda v: 'ftoa.h' in (v.get('loc') or ''))
     # the reservation budget of SerializeImpl (every unchecked write covered by the Grow in force) is also decided by the
     # exploration, whose write-buffer model reserves exactly what is asked for (sv/ser_model.py)
-    rep.corroborate('E4.budget', 'E6.serializer')
+    # (E4.budget is NOT paired with the exploration in general: the write buffer's initial capacity covers every small
+    # document, so an under-reservation only shows on documents larger than the exploration's.  The one exception is the
+    # length handed to PushSizeUnsafe: the exploration requires it to be exactly the length of the text the value writer
+    # just produced, which is what the budget engine needs an upper bound for - a bound it cannot derive when the
+    # sub-type dispatch is spelt as an if-chain whose fall-through is infeasible.)
+    rep.corroborate('E4.budget', 'E6.serializer', only=lambda v: 'PushSizeUnsafe' in (v.get('construct') or ''))
     # the string writer: Quote evaluated byte by byte (shared with C09); its shape rules are decided together with it
     from .. import quoteeval
     for cfgq in ('K1', 'K8'):
@@ -697,7 +710,6 @@ def run(rep, tier):
     rep.corroborate_floor('C08: number sub-type dispatch', 'E6.serializer')
     rep.corroborate('E1.inf-err', 'E6.serializer')      # the exploration includes the non-finite doubles: nothing may be pushed for them
     rep.corroborate_floor('C06.b:', 'E6.serializer')
-    rep.corroborate_floor('C06.a:', 'E6.serializer')
     rep.trust('clang 14 front end', 'std::realloc(p, n) returns a block of n bytes keeping the old contents',
               *['%s write contract: %s' % (k, v['why']) for k, v in WRITER_CONTRACT.items()])
     rep.assumptions += [
